@@ -344,6 +344,8 @@ def make_keymap(km):
     if kind == 'raw':
         return keymap(**kw)
     if kind == 'string':
+        if km.get('enc'):
+            kw.update(encoding=km['enc'], strict=km.get('strict', True))     # a (possibly lossy) codec for the key text
         return stringmap(**kw)
     if kind == 'pickle':
         if arg is not None:
